@@ -12,6 +12,7 @@ mod compile;
 mod dnnf;
 mod ff;
 mod lattice;
+mod lru;
 mod order;
 mod table;
 
@@ -26,6 +27,7 @@ pub fn run_case(c: &Value) -> CaseResult {
         "dnnf_cond" => dnnf::run(c),
         "cnf_eval" | "pm_ops" => cnf::run(c),
         "order_perm" => order::run(c),
+        "lru_seq" => lru::run(c),
         "lat_eu" | "lat_real" | "lat_bool" => lattice::run(c),
         "compile_expr" | "compile_cnf" => compile::run(c),
         _ => Err(format!("unknown case kind {kind}")),
@@ -77,6 +79,7 @@ fn main() {
                 "dnnf" => dnnf::candidates(seed),
                 "cnf" => cnf::candidates(seed),
                 "order" => order::candidates(seed),
+                "lru" => lru::candidates(seed),
                 "lattice" => lattice::candidates(seed),
                 "compile" => compile::candidates(seed),
                 _ => vec![],
